@@ -9,7 +9,7 @@ ENGINE = "net"
 LEVEL = "exploration"
 RULE = ("Each case draws a history of up to 40 (thorough 120) operations on a real hio Server/ServerTls and 2-3 Clients/ClientTls on the "
         "fake kernel: client service (connect / handshake progress), client reopen, client close, client abandons a connection "
-        "(close so the server side is cut off), server service, net delivery, server close, server reopen. Client ports come from "
+        "(close so the server side is cut off), server service, net delivery, server close, server reopen, a burst of full service rounds (so connects and TLS handshakes complete); every history ends with a server close. Client ports come from "
         "a pool of two, so a new connection regularly arrives from the same (host, port) while the old Remoter is still in the "
         "server's table; TLS clients are left mid-handshake by simply not servicing them. Oracle, evaluated after every close in "
         "the history: after server.close() no socket the server created or accepted (listen, accepted, TLS-wrapped) is open in "
@@ -20,9 +20,9 @@ COMPONENTS = dict(real=["hio.core.tcp.serving.Server/ServerTls/Remoter/RemoterTl
                   stub=["kernel sockets with open/closed accounting (FakeSocket)"])
 ASSUMPTIONS = ["a socket counts as released when close() was called on it (the fake kernel's descriptor table)"]
 PROBES = ["server_close_with_pending_handshake", "server_close_after_replacement", "server_close_with_established", "client_reopen_while_connected",
-          "same_address_replacement", "server_reopen"]
+          "same_address_replacement", "server_reopen", "tls_established_replaced_after_handshake"]
 BOUNDS = dict(quick=dict(ops=40, clients=3), thorough=dict(ops=120, clients=3))
-TIERS = dict(quick=dict(cases=4000, wall=40.0), thorough=dict(cases=250000, wall=400.0))
+TIERS = dict(quick=dict(cases=12000, wall=40.0), thorough=dict(cases=250000, wall=400.0))
 SIM_TIME_UNIT = "net steps"
 
 
@@ -43,7 +43,7 @@ def run_case(tape, tier):
         server_open = True
         nontriv = False
         W = [("svc_client", 6), ("svc_server", 6), ("net", 4), ("client_reopen", 2), ("client_close", 2),
-             ("server_close", 1), ("server_reopen", 1), ("client_tx", 1)]
+             ("server_close", 1), ("server_reopen", 2), ("client_tx", 1), ("rounds", 3)]
         names = [w[0] for w in W]
         weights = [w[1] for w in W]
 
@@ -65,6 +65,46 @@ def run_case(tape, tier):
             cas = [rm.ca for rm in lab.remoters]
             return len(cas) - len(set(cas))
 
+        was_connected = set()
+
+        def note_connected():
+            for rm in lab.remoters:
+                if getattr(rm, "connected", True) and rm.cs is not None:
+                    was_connected.add(id(rm))
+
+        def server_close_and_check():
+            nonlocal nontriv
+            pend = len(getattr(lab.server, "cxes", {}))
+            est = len(lab.server.ixes)
+            repl = dup_addresses()
+            if tls and repl:
+                seen = {}
+                for rm in lab.remoters:
+                    if rm.ca in seen and id(seen[rm.ca]) in was_connected and id(rm) in was_connected:
+                        res.probes["tls_established_replaced_after_handshake"] += 1
+                        break
+                    seen[rm.ca] = rm
+            lab.as_owner("server", lab.server.close)
+            res.comparisons += 1
+            if pend:
+                res.probes["server_close_with_pending_handshake"] += 1
+            if repl:
+                res.probes["server_close_after_replacement"] += 1
+            if est:
+                res.probes["server_close_with_established"] += 1
+            if est and (pend or repl):
+                nontriv = True
+            o = open_of("server")
+            if o:
+                kinds = []
+                for s in o:
+                    kinds.append("listen" if s.state == "listening" else "accepted from port %s" % (s.raddr[1] if s.raddr else "?"))
+                res.violate("server-socket-leak", "after server.close() %d socket(s) of the server are still open: %s "
+                            "(pending handshakes before close: %d, established: %d, replaced-and-unheld: %d)" % (
+                                len(o), kinds, pend, est, repl))
+                return True
+            return False
+
         for _ in range(nops):
             op = names[tape.weighted("op", weights)]
             i = tape.draw("who", ncl)
@@ -79,6 +119,7 @@ def run_case(tape, tier):
                 if server_open:
                     try:
                         lab.svc_server()
+                        note_connected()
                     except (OSError, AttributeError):
                         # e.g. remoters closed by an earlier server.close() are still in the table after
                         # reopen() and make service() raise AttributeError; not what this property is about
@@ -88,6 +129,25 @@ def run_case(tape, tier):
                         res.probes["same_address_replacement"] += 1
             elif op == "net":
                 net.step()
+            elif op == "rounds":
+                # a few full service rounds so that connects and TLS handshakes run to completion
+                for _r in range(2 + i * 2):
+                    for j in range(ncl):
+                        try:
+                            lab.svc_client(j)
+                        except OSError:
+                            pass
+                    net.step()
+                    if server_open:
+                        try:
+                            lab.svc_server()
+                            note_connected()
+                        except (OSError, AttributeError):
+                            res.probes["server_service_raised"] += 1
+                    net.step()
+                if dup_addresses() > dups[0]:
+                    dups[0] = dup_addresses()
+                    res.probes["same_address_replacement"] += 1
             elif op == "client_tx":
                 lab.clients[i].tx(b"x" * 10)
             elif op == "client_reopen":
@@ -111,28 +171,8 @@ def run_case(tape, tier):
             elif op == "server_close":
                 if not server_open:
                     continue
-                pend = len(getattr(lab.server, "cxes", {}))
-                est = len(lab.server.ixes)
-                repl = dup_addresses()
-                lab.as_owner("server", lab.server.close)
                 server_open = False
-                res.comparisons += 1
-                if pend:
-                    res.probes["server_close_with_pending_handshake"] += 1
-                if repl:
-                    res.probes["server_close_after_replacement"] += 1
-                if est:
-                    res.probes["server_close_with_established"] += 1
-                if est and (pend or repl):
-                    nontriv = True
-                o = open_of("server")
-                if o:
-                    kinds = []
-                    for s in o:
-                        kinds.append("listen" if s.state == "listening" else "accepted from port %s" % (s.raddr[1] if s.raddr else "?"))
-                    res.violate("server-socket-leak", "after server.close() %d socket(s) of the server are still open: %s "
-                                "(pending handshakes before close: %d, established: %d, replaced-and-unheld: %d)" % (
-                                    len(o), kinds, pend, est, repl))
+                if server_close_and_check():
                     break
             elif op == "server_reopen":
                 ok = lab.as_owner("server", lab.server.reopen)
@@ -143,6 +183,10 @@ def run_case(tape, tier):
                 if len(lst) > 1:
                     res.violate("server-socket-leak", "after server.reopen() there are %d open listen sockets" % len(lst))
                     break
+        if server_open and not res.violations:
+            # every history ends with the server closed, so the oracle sees whatever the history left behind
+            hist.append(("server_close", 0))
+            server_close_and_check()
         events = list(net.events)
         sim_now = net.now
     res.scenario = lambda: dict(tls=tls, clients=ncl, history=["%s%d" % h for h in hist])
